@@ -120,6 +120,16 @@ def spec_c07(ctx, case, x):
                 if exp or obs_names:
                     bad.append(("spurious-dependency" if spurious else "missing-dependency",
                                 (f"{tname}{asg}@{w}", f"{vm}:{kind}", exp, sorted(set(obs_names)))))
+            # one clone per producer *node*: every runnable node of an expected producer test (same worker, same
+            # variant of every shared vm) is the parent of exactly one member
+            inst = sorted(j for j, (pt, pasg, pw, _) in info.items()
+                          if pt is not None and pt["name"] in exp and pw == w and pasg.get(vm) == asg[vm]
+                          and all(pasg[u] == asg[u] for u in pasg if u in asg))
+            multi_slots = sum(1 for d in slots.values() if d["get"] and not d["get_state"])
+            if inst and multi_slots <= 1 and sorted(obs_nodes) != inst and sorted(set(obs_nodes)) == sorted(obs_nodes):
+                bad.append(("clone-per-producer",
+                            (f"{tname}{asg}@{w}", f"{vm}:{kind}", [nodes[j]["id"] for j in inst],
+                             [nodes[j]["id"] for j in obs_nodes])))
             # one clone per producer: the members' parents for a cloned slot are pairwise different
             if len(members) > 1 and len(obs_nodes) == len(members) and len(set(obs_nodes)) not in (1, len(members)):
                 # (several cloned slots would multiply: excluded as double-clone before)
